@@ -3,11 +3,439 @@
 package c01
 
 import (
+	"context"
+	"fmt"
+	"net"
+	"sort"
+	"strconv"
+	"strings"
+	"sync"
 	"testing"
 
+	"github.com/foxcpp/maddy/framework/config"
+	"github.com/foxcpp/maddy/framework/module"
+	"github.com/foxcpp/maddy/internal/target/remote"
+	smtptarget "github.com/foxcpp/maddy/internal/target/smtp"
+	"github.com/foxcpp/maddy/internal/zzverif/mx"
+	"verifkit/prng"
 	"verifkit/rep"
+	"verifkit/smtpd"
 )
 
+// Real-client kinds: the queue sits on the real remote / target.smtp /
+// target.lmtp module, which talks to one scripted verifkit/smtpd server. The
+// target boundary is observed through mx.TapTarget; "committed" and
+// "permanent" are read off what the server actually wrote.
+
+// oneMXResolver answers every MX query with the same host; the dialer maps
+// that host to the scripted server.
+type oneMXResolver struct{}
+
+const mxHost = "mx.nexthop.invalid."
+
+func (oneMXResolver) LookupAddr(ctx context.Context, addr string) ([]string, error) {
+	return nil, &net.DNSError{Err: "no such host", Name: addr, IsNotFound: true}
+}
+func (oneMXResolver) LookupHost(ctx context.Context, host string) ([]string, error) {
+	return []string{"127.0.0.1"}, nil
+}
+func (oneMXResolver) LookupMX(ctx context.Context, name string) ([]*net.MX, error) {
+	return []*net.MX{{Host: mxHost, Pref: 10}}, nil
+}
+func (oneMXResolver) LookupTXT(ctx context.Context, name string) ([]string, error) {
+	return nil, &net.DNSError{Err: "no such host", Name: name, IsNotFound: true}
+}
+func (oneMXResolver) LookupIPAddr(ctx context.Context, host string) ([]net.IPAddr, error) {
+	return []net.IPAddr{{IP: net.IPv4(127, 0, 0, 1)}}, nil
+}
+
+// srvAct is the scripted behaviour at one server stage.
+type srvAct struct {
+	What string // ok temp perm drop rst garbage ok-then-close
+	Code int
+}
+
+// srvScript decides server behaviour as a pure function of (connection,
+// transaction, stage, recipient index) and logs every consulted stage into the
+// shared event log, which gives one total order with the tap events.
+type srvScript struct {
+	seed    uint64
+	lmtp    bool
+	weights map[smtpd.Stage][]int // ok temp perm drop garbage
+	lg      *mx.Log
+	name    string
+
+	mu        sync.Mutex
+	committed map[int]bool // connection has carried a 2xx to a final dot / recipient status
+	nonOK     int
+	used      []string
+}
+
+var tempCodes = []int{421, 450, 451, 452}
+var permCodes = []int{550, 551, 553, 554, 501}
+
+func (s *srvScript) decide(ev smtpd.Event) srvAct {
+	w := s.weights[ev.Stage]
+	if w == nil {
+		return srvAct{What: "ok"}
+	}
+	g := prng.New(s.seed, uint64(ev.Conn)<<20|uint64(ev.Txn)<<8|uint64(ev.RcptIndex), "c01-srv|"+string(ev.Stage))
+	switch g.Weighted(w) {
+	case 1:
+		return srvAct{What: "temp", Code: prng.Pick(g, tempCodes)}
+	case 2:
+		return srvAct{What: "perm", Code: prng.Pick(g, permCodes)}
+	case 3:
+		if g.Bool() {
+			return srvAct{What: "rst"}
+		}
+		return srvAct{What: "drop"}
+	case 4:
+		return srvAct{What: "garbage"}
+	case 5:
+		return srvAct{What: "ok-then-close"}
+	}
+	return srvAct{What: "ok"}
+}
+
+func (s *srvScript) script(ev smtpd.Event) *smtpd.Action {
+	a := s.decide(ev)
+	g := prng.New(s.seed, uint64(ev.Conn)<<20|uint64(ev.Txn)<<8|uint64(ev.RcptIndex), "c01-srvtext|"+string(ev.Stage))
+	commitStage := ev.Stage == smtpd.StageLMTPRcptStatus || ev.Stage == smtpd.StageDot && !s.lmtp
+	s.mu.Lock()
+	had := s.committed[ev.Conn]
+	if a.What == "rst" && had {
+		// An abortive close may destroy a 2xx the client has not read yet;
+		// after a commit on this connection only graceful closes are used so
+		// that "committed" is never ambiguous for the client.
+		a.What = "drop"
+	}
+	if s.lmtp && ev.Stage == smtpd.StageDot && a.What == "ok-then-close" {
+		a.What = "ok"
+	}
+	if commitStage && (a.What == "ok" || a.What == "ok-then-close") {
+		s.committed[ev.Conn] = true
+	}
+	if a.What != "ok" {
+		s.nonOK++
+		s.used = append(s.used, fmt.Sprintf("conn%d txn%d %s[%d]=%s%s", ev.Conn, ev.Txn, ev.Stage, ev.RcptIndex, a.What, codeStr(a.Code)))
+	}
+	s.mu.Unlock()
+
+	info := map[string]string{"conn": strconv.Itoa(ev.Conn), "txn": strconv.Itoa(ev.Txn), "act": a.What}
+	if a.Code != 0 {
+		info["code"] = strconv.Itoa(a.Code)
+	}
+	if len(ev.Rcpts) > 0 {
+		info["rcpts"] = strings.Join(ev.Rcpts, " ")
+	}
+	s.lg.Add(mx.Event{Kind: "srv." + string(ev.Stage), Target: s.name, Rcpt: ev.Rcpt, From: ev.From, Info: info})
+
+	var act *smtpd.Action
+	switch a.What {
+	case "ok":
+		if commitStage || g.Chance(3, 4) {
+			return nil // the plain default reply
+		}
+		return nil
+	case "ok-then-close":
+		return &smtpd.Action{DropAfter: true}
+	case "temp", "perm":
+		act = &smtpd.Action{Code: a.Code}
+		switch g.Intn(5) {
+		case 0: // no enhanced code, stock text
+		case 1:
+			act.Enh = fmt.Sprintf("%d.%d.%d", a.Code/100, 1+g.Intn(7), g.Intn(10))
+			act.Text = []string{"scripted refusal"}
+		case 2:
+			act.Enh = fmt.Sprintf("%d.0.0", a.Code/100)
+			act.Text = []string{"first line", "second line with \xc3\xbcnicode", "third"}
+		case 3:
+			act.Text = []string{"8bit \xff\xfe text and a tab\there"}
+		case 4:
+			act.Text = []string{strings.Repeat("long ", 150)}
+		}
+		if a.Code == 421 || g.Chance(1, 8) {
+			act.DropAfter = true
+		}
+		if s.lmtp && ev.Stage == smtpd.StageDot {
+			// One reply in place of the per-recipient ones: close afterwards or
+			// the client waits for the missing replies until its time-out.
+			act.DropAfter = true
+		}
+	case "drop":
+		act = &smtpd.Action{DropBefore: true}
+	case "rst":
+		act = &smtpd.Action{DropBefore: true, RST: true}
+	case "garbage":
+		act = &smtpd.Action{Raw: []byte("%% this is not an SMTP reply\r\n"), DropAfter: true}
+	}
+	return act
+}
+
+func codeStr(c int) string {
+	if c == 0 {
+		return ""
+	}
+	return ":" + strconv.Itoa(c)
+}
+
+// buildSrvViews fills attempt.Srv from the unified log and the transcript.
+func buildSrvViews(events []mx.Event, tapName, srvName string, lmtp bool, txns []smtpd.TxnRecord, m *msgSpec, atts []*attempt) {
+	for _, a := range atts {
+		a.Srv = &srvView{Committed: map[string]int{}, Perm: map[string]string{}, Fail: map[string]string{}}
+	}
+	if len(atts) == 0 {
+		return
+	}
+	byDel := map[int]*attempt{}
+	for _, a := range atts {
+		byDel[a.Delivery] = a
+	}
+	type key struct{ conn, txn string }
+	txnAttempt := map[key]*attempt{}
+	var cur *attempt
+	phase, phaseRcpt := "", ""
+	mapRcpts := func(a *attempt, names []string) []string {
+		var out []string
+		for _, n := range names {
+			if r, ok := m.byLocal(n); ok {
+				out = append(out, r)
+			} else {
+				a.Srv.Foreign = append(a.Srv.Foreign, n)
+			}
+		}
+		return out
+	}
+	for _, e := range events {
+		if e.Target == tapName {
+			switch e.Kind {
+			case "start.call":
+				// The attempt record exists only once "start" returned; find it by delivery id.
+				cur = byDel[e.Delivery]
+				phase, phaseRcpt = "start", ""
+			case "addrcpt.call":
+				phase, phaseRcpt = "addrcpt", e.Rcpt
+			case "body.call", "bodyna.call":
+				phase, phaseRcpt = "body", ""
+			case "commit.call", "abort.call":
+				phase, phaseRcpt = "close", ""
+			case "start", "addrcpt", "body", "bodyna":
+				phase, phaseRcpt = "between", ""
+			case "commit", "abort":
+				phase, phaseRcpt = "idle", ""
+			}
+			continue
+		}
+		if e.Target != srvName || cur == nil || !strings.HasPrefix(e.Kind, "srv.") {
+			continue
+		}
+		stage := smtpd.Stage(strings.TrimPrefix(e.Kind, "srv."))
+		act := e.Info["act"]
+		var rcpts []string
+		if e.Info["rcpts"] != "" {
+			rcpts = strings.Split(e.Info["rcpts"], " ")
+		}
+		if stage == smtpd.StageDot || stage == smtpd.StageLMTPRcptStatus {
+			txnAttempt[key{e.Info["conn"], e.Info["txn"]}] = cur
+		}
+		if act == "ok" || act == "ok-then-close" {
+			continue
+		}
+		what := string(stage)
+		perm := act == "perm"
+		switch stage {
+		case smtpd.StageRcpt, smtpd.StageLMTPRcptStatus:
+			for _, r := range mapRcpts(cur, []string{e.Rcpt}) {
+				if perm {
+					cur.Srv.Perm[r] = string(stage)
+				} else {
+					cur.Srv.Fail[r] = what
+				}
+			}
+		case smtpd.StageData, smtpd.StageDot:
+			for _, r := range mapRcpts(cur, rcpts) {
+				if perm && !(lmtp && stage == smtpd.StageDot) {
+					// (LMTP: a single reply in place of the per-recipient
+					// statuses is a protocol violation, not judged as permanent.)
+					cur.Srv.Perm[r] = string(stage)
+				} else {
+					cur.Srv.Fail[r] = what
+				}
+			}
+		case smtpd.StageMail:
+			switch phase {
+			case "start":
+				if perm {
+					cur.Srv.PermAll = "mail"
+				} else {
+					cur.Srv.FailAll = what
+				}
+			case "addrcpt":
+				if perm {
+					cur.Srv.Perm[phaseRcpt] = "mail"
+				} else {
+					cur.Srv.Fail[phaseRcpt] = what
+				}
+			}
+		case smtpd.StageConnect, smtpd.StageEHLO:
+			// Greeting / EHLO refusals: a client may legitimately fall back
+			// (HELO, next MX), so they are never judged as permanent.
+			switch phase {
+			case "start":
+				cur.Srv.FailAll = what
+			case "addrcpt":
+				if _, ok := cur.Srv.Fail[phaseRcpt]; !ok {
+					cur.Srv.Fail[phaseRcpt] = what
+				}
+			}
+		}
+	}
+	for _, tx := range txns {
+		a := txnAttempt[key{strconv.Itoa(tx.Conn), strconv.Itoa(tx.N)}]
+		if a == nil {
+			continue
+		}
+		for _, r := range mapRcpts(a, tx.CommittedRcpts) {
+			a.Srv.Committed[r]++
+		}
+	}
+	for _, a := range atts {
+		sort.Strings(a.Srv.Foreign)
+	}
+}
+
+func realWeights(p *prng.R, lmtp bool) (map[smtpd.Stage][]int, string) {
+	f := []int{4, 12, 25, 45}[p.Intn(4)]
+	// ok temp perm drop garbage ok-then-close
+	mk := func(scale, t, pm, d, gb, oc int) []int {
+		ff := f * scale
+		tot := t + pm + d + gb + oc
+		return []int{(400 - ff) * tot, ff * t, ff * pm, ff * d, ff * gb, ff * oc}
+	}
+	w := map[smtpd.Stage][]int{
+		smtpd.StageConnect: mk(1, 3, 2, 2, 1, 0),
+		smtpd.StageEHLO:    mk(1, 3, 1, 2, 0, 0),
+		smtpd.StageMail:    mk(2, 3, 3, 2, 1, 0),
+		smtpd.StageRcpt:    mk(4, 3, 3, 1, 1, 0),
+		smtpd.StageData:    mk(3, 3, 3, 2, 1, 0),
+		smtpd.StageDot:     mk(4, 3, 3, 3, 1, 2),
+		smtpd.StageRset:    mk(2, 2, 2, 2, 0, 0),
+		smtpd.StageQuit:    mk(2, 2, 1, 3, 0, 0),
+	}
+	if lmtp {
+		w[smtpd.StageDot] = mk(1, 2, 2, 2, 0, 0)
+		w[smtpd.StageLMTPRcptStatus] = mk(4, 3, 3, 2, 0, 2)
+	}
+	return w, fmt.Sprintf("fail=%d/400 per unit", f)
+}
+
 func runRealCase(t *testing.T, r *rep.Reporter, c *rep.Case, k int) {
-	c.Done("", false)
+	p := prng.New(r.Seed(), uint64(k), "c01-real")
+	sc := &scenario{}
+	sc.Kind = []string{"remote", "smtp", "lmtp"}[p.Intn(3)]
+	sc.MaxTries = 1 + p.Weighted([]int{2, 4, 4, 2})
+	sc.Bounce = !p.Chance(1, 8)
+	sc.Parallelism = 1
+	m := genMsg(p, fmt.Sprintf("r%d", k), 1+p.Weighted([]int{2, 4, 3, 2}), true)
+	sc.Msgs = []*msgSpec{m}
+	lmtp := sc.Kind == "lmtp"
+	srvUTF8 := p.Chance(2, 5)
+	weights, wdesc := realWeights(p, lmtp)
+	reuse := 0 // production default (10)
+	if sc.Kind == "remote" && p.Chance(1, 4) {
+		reuse = -1 // pooling off
+	}
+	sc.Desc = fmt.Sprintf("real %s srv-smtputf8=%v %s reuse=%d", sc.Kind, srvUTF8, wdesc, reuse)
+
+	lg := mx.NewLog()
+	srvName := "c01srv" + fmt.Sprint(k)
+	ss := &srvScript{seed: p.Uint64(), lmtp: lmtp, weights: weights, lg: lg, name: srvName, committed: map[int]bool{}}
+	srv, err := smtpd.New(smtpd.Config{LMTP: lmtp, SMTPUTF8: srvUTF8, PIPELINING: p.Bool(), EightBitMIME: p.Bool(), Hostname: "nexthop.invalid", Script: ss.script})
+	if err != nil {
+		t.Fatal(err)
+	}
+	defer srv.Close()
+
+	inst := "c01real" + fmt.Sprint(k)
+	var inner module.DeliveryTarget
+	var closeInner func()
+	switch sc.Kind {
+	case "remote":
+		addr := srv.Addr()
+		rt, err := remote.VerifNewTarget(remote.VerifTargetOpts{
+			Name: inst, Hostname: "mx.verif.example", Resolver: oneMXResolver{},
+			Dialer: func(ctx context.Context, network, _ string) (net.Conn, error) {
+				return (&net.Dialer{}).DialContext(ctx, "tcp", addr)
+			},
+			NoTLS: true, ConnReuseLimit: reuse,
+		})
+		if err != nil {
+			t.Fatal(err)
+		}
+		inner, closeInner = rt, func() { rt.Close() }
+	default:
+		mod, err := smtptarget.NewDownstream("target."+sc.Kind, inst, nil, []string{"tcp://" + srv.Addr()})
+		if err != nil {
+			t.Fatal(err)
+		}
+		err = mod.Init(config.NewMap(nil, config.Node{Children: []config.Node{
+			{Name: "hostname", Args: []string{"mx.verif.example"}},
+			{Name: "starttls", Args: []string{"no"}},
+		}}))
+		if err != nil {
+			t.Fatal(err)
+		}
+		inner, closeInner = mod.(module.DeliveryTarget), func() {}
+	}
+	tap := mx.NewTap(inst, lg, inner)
+	var bounce module.DeliveryTarget
+	bname := "c01rb" + fmt.Sprint(k)
+	if sc.Bounce {
+		bounce = mx.NewTarget(bname, lg)
+	}
+	res := enqueueAndWait(t, sc, tap, bounce, lg)
+	closeInner()
+	srv.Close()
+	txns := srv.Txns()
+
+	for _, e := range lg.Events() {
+		if e.Target == srvName {
+			r.Count("srv_"+strings.TrimPrefix(e.Kind, "srv.")+"_"+e.Info["act"], 1)
+		}
+	}
+	ncommit := 0
+	for _, tx := range txns {
+		ncommit += len(tx.CommittedRcpts)
+	}
+	r.Count("srv_transactions", int64(len(txns)))
+	r.Count("srv_recipient_commits", int64(ncommit))
+
+	extra := "srv-utf8=off"
+	if srvUTF8 {
+		extra = "srv-utf8=on"
+	}
+	var txl []string
+	for _, tx := range txns {
+		var rc []string
+		for _, x := range tx.Rcpts {
+			rc = append(rc, fmt.Sprintf("%s=%d", x.Addr, x.Code))
+		}
+		txl = append(txl, fmt.Sprintf("conn%d txn%d MAIL<%s>=%d RCPT[%s] DATA=%d dot=%d rcptdot=%v committed=%v", tx.Conn, tx.N, tx.From, tx.MailCode, strings.Join(rc, " "), tx.DataCmdCode, tx.DotCode, tx.RcptDotCodes, tx.CommittedRcpts))
+	}
+	evaluate(r, c, sc, res, lg, inst, bname, extra, func(m *msgSpec, atts []*attempt) {
+		buildSrvViews(lg.Events(), inst, srvName, lmtp, txns, m, atts)
+	}, map[string]any{"server_script_nonok": ss.used, "server_transactions": txl})
+	r.Count("events", int64(lg.Len()))
+	if k < 3 {
+		r.Sample(map[string]any{"scenario": sc.literal(), "server_script_nonok": ss.used})
+	}
+	needsConv := false
+	for _, rc := range m.distinct() {
+		if !isASCII(rc) {
+			needsConv = true
+		}
+	}
+	shape := fmt.Sprintf("C/%s/%v/%d/%v/idn=%v/%s", sc.Kind, srvUTF8, sc.MaxTries, sc.Bounce, needsConv, strings.Join(ss.used, ";"))
+	c.Done(shape, ss.nonOK > 0)
 }
